@@ -33,7 +33,11 @@ type priorC12 struct {
 }
 
 type caseC12Genesis struct {
-	Prior   []priorC12  `json:"prior"`
+	Prior []priorC12 `json:"prior"`
+	// Filler is the number of further routes with imported statistics that the history does not
+	// touch: route i is (IBC channel-<2000+i>) -> (HYPERLANE domain i), denom ufoo, totals 7/5,
+	// count 3. A ledger is not always smaller than one page of a listing.
+	Filler  int         `json:"filler,omitempty"`
 	History kit.History `json:"history"`
 }
 
@@ -59,6 +63,21 @@ func runC12Genesis(w *world.World, c caseC12Genesis, rec *kit.Recorder) error {
 			g.DispatcherGenesis.DispatchedCounts = append(g.DispatcherGenesis.DispatchedCounts, dispatchertypes.DispatchCountEntry{SourceId: &src, DestinationId: &dst, Count: p.Count})
 			model.Counts[rk] = p.Count
 		}
+	}
+	for i := 0; i < c.Filler; i++ {
+		src := core.CrossChainID{ProtocolId: core.PROTOCOL_IBC, CounterpartyId: fmt.Sprintf("channel-%d", 2000+i)}
+		dst := core.CrossChainID{ProtocolId: core.PROTOCOL_HYPERLANE, CounterpartyId: fmt.Sprint(i)}
+		k := kit.StatKey{SrcProto: kit.ProtoIBC, SrcCp: src.CounterpartyId, DstProto: kit.ProtoHyp, DstCp: dst.CounterpartyId, Denom: world.Ufoo}
+		g.DispatcherGenesis.DispatchedAmounts = append(g.DispatcherGenesis.DispatchedAmounts, dispatchertypes.DispatchedAmountEntry{
+			SourceId: &src, DestinationId: &dst, Denom: world.Ufoo,
+			AmountDispatched: dispatchertypes.AmountDispatched{Incoming: sdkmath.NewInt(7), Outgoing: sdkmath.NewInt(5)},
+		})
+		g.DispatcherGenesis.DispatchedCounts = append(g.DispatcherGenesis.DispatchedCounts, dispatchertypes.DispatchCountEntry{SourceId: &src, DestinationId: &dst, Count: 3})
+		model.Amounts[k] = &kit.StatVal{In: big.NewInt(7), Out: big.NewInt(5)}
+		model.Counts[kit.RouteKey{SrcProto: k.SrcProto, SrcCp: k.SrcCp, DstProto: k.DstProto, DstCp: k.DstCp}] = 3
+	}
+	if c.Filler > 0 {
+		rec.Label("genesis", fmt.Sprintf("ledger with %s imported routes", map[bool]string{true: "more than 100", false: "up to 100"}[c.Filler > 100]))
 	}
 	if err := g.Validate(); err != nil {
 		return fmt.Errorf("harness: generated prior statistics do not validate: %w", err)
@@ -159,6 +178,9 @@ func TestC12FromGenesis(t *testing.T) {
 				Count: pick(rt, l+"/count", []uint64{1, 5, 4294967295, 4294967296, 9223372036854775807, 9223372036854775808, math.MaxUint64 - 1, math.MaxUint64, math.MaxUint64}),
 			})
 		}
+		if kit.Chance(rt, "filler", 15) {
+			c.Filler = pick(rt, "filler/n", []int{1, 99, 100, 101, 130})
+		}
 		rec.Eval()
 		if err := runC12Genesis(w, c, rec); err != nil {
 			rec.Fail(rt, c, "%v", err)
@@ -166,6 +188,7 @@ func TestC12FromGenesis(t *testing.T) {
 	})
 	rec.Require("genesis", "a successful transfer on a route with imported statistics", 30)
 	rec.Require("genesis", "a successful transfer on a route whose counter is at 2^64-1", 5)
+	rec.Require("genesis", "ledger with more than 100 imported routes", 5)
 }
 
 func init() {
